@@ -27,7 +27,7 @@ def model_out_rows(m):
 def run(ctx):
     rnd = ctx.rnd
     ctx.rule = ("sequences of 0-8 rows mixing accepted rows, field errors, wrong item counts and duplicates x delimited and fixed CIDs (1-4 fields, IsUnique / "
-                "DistinctCount / plugin checks) x header 0-1; outcome of every write_row, stream contents, then cutplace.rows over the produced output; "
+                "DistinctCount / plugin checks) x header 0-1; outcome of every write_row (half of the scenarios through write_rows batches), stream contents, then cutplace.rows over the produced output; "
                 "distinct = distinct (CID, row sequence); non-trivial = at least one row written")
     n = 1200 if ctx.tier == "quick" else 15000
     scns = []
@@ -45,7 +45,7 @@ def run(ctx):
         if header and rows and len(rows[0]) != len(fields):
             rows[0] = [engine.pad(f["good"][0], f.get("width", 0)) for f in fields]  # header rows are written unvalidated: keep them well-shaped
         scns.append({"format": fmt, "allowed": None, "fields": fields, "checks": engine.gen_checks(rnd, fields), "header": header,
-                     "runs": [{"kind": "W", "rows": rows, "close": True}]})
+                     "runs": [{"kind": "W", "rows": rows, "close": True, "batch": rnd.random() < 0.5}]})
     for scn, mruns, iruns in engine.run_scenarios(scns):
         sc = engine.strip_scn(scn)
         if isinstance(mruns, str) or isinstance(iruns, str):
